@@ -36,6 +36,9 @@ PROGRAMS = [
     ("SELECT kind, sum(amount) AS s, count(amount) AS n FROM orders WHERE qty IS NULL GROUP BY kind", ["kind"], ["s", "n"]),
     ("SELECT sum(bal) AS b, avg(bal) AS m FROM orders", [], ["b", "m"]),
     ("SELECT kind, sum(bal) AS b FROM orders GROUP BY kind", ["kind"], ["b"]),
+    # outer join along the privacy-unit path: units without orders keep their (padded) row
+    ("SELECT sum(u.age) AS s, count(u.age) AS n FROM users AS u LEFT JOIN orders AS o ON u.id = o.user_id", [], ["s", "n"]),
+    ("SELECT u.city AS city, count(u.age) AS n FROM users AS u LEFT JOIN orders AS o ON u.id = o.user_id GROUP BY u.city", ["city"], ["n"]),
 ]
 
 
@@ -73,25 +76,37 @@ def build_task(t):
             r = symrel.make_table(ctx, tj, K, fixed=fx.get(p_[0]))
             db[p_] = r
             ctx_tables[p_] = (tj, r)
-        RD = symrel.eval_rel(ctx, clean, db, {})
+        memo = {}
+        RD = symrel.eval_rel(ctx, clean, db, memo)
+        RN = symrel.eval_rel(ctx, t["clean_nc"], db, memo) if t.get("clean_nc") is not None else None
         RO = symrel.eval_rel(ctx, orig, db, {})
     except exprsem.Unsupported as ex:
         return dict(unsupported=str(ex)[:50])
     samekey = lambda a, b: land([num_eq(a.cells[k], b.cells[k]) for k in kc])
     sameall = lambda a, b: land([num_eq(a.cells[k], b.cells[k]) for k in kc] + [agg_eq(a.cells[k], b.cells[k]) for k in ac])
-    bad = []
-    for a in RO.rows:   # every original group is there with the same aggregates
-        bad.append(land([a.p, lnot(lor([land([b.p, sameall(a, b)]) for b in RD.rows]))]))
-    for b in RD.rows:   # an extra DP group (empty public group) carries zeros
-        extra = land([b.p] + [lnot(land([a.p, samekey(a, b)])) for a in RO.rows])
-        nonzero = lor([land([lnot(b.cells[c].n), "(not (= %s 0.0))" % num(b.cells[c])]) for c in ac if b.cells[c].ty in ("i64", "f64")])
-        bad.append(land([extra, nonzero]))
-    for b1, b2 in itertools.combinations(RD.rows, 2):   # two DP rows for one key
-        bad.append(land([b1.p, b2.p, samekey(b1, b2)]) if kc else land([b1.p, b2.p]))
+
+    def bad_of(RD):
+        bad = []
+        for a in RO.rows:   # every original group is there with the same aggregates
+            bad.append(land([a.p, lnot(lor([land([b.p, sameall(a, b)]) for b in RD.rows]))]))
+        for b in RD.rows:   # an extra DP group (empty public group) carries zeros
+            extra = land([b.p] + [lnot(land([a.p, samekey(a, b)])) for a in RO.rows])
+            nonzero = lor([land([lnot(b.cells[c].n), "(not (= %s 0.0))" % num(b.cells[c])]) for c in ac if b.cells[c].ty in ("i64", "f64")])
+            bad.append(land([extra, nonzero]))
+        for b1, b2 in itertools.combinations(RD.rows, 2):   # two DP rows for one key
+            bad.append(land([b1.p, b2.p, samekey(b1, b2)]) if kc else land([b1.p, b2.p]))
+        return ctx.name(lor(bad), "bool", "bad")
     nopanic = [lnot(p) for p in ctx.bank.panics]
     qid = "exact|%d|L%d" % (t["qi"], t["li"])
-    out = [(dict(id=qid, script=ctx.script(nopanic + [lor(bad)]), values=symrel.value_names(ctx_tables), solvers=["cvc5", "z3new"]),
-            dict(what="exact", sql=t["sql"], kc=kc, ac=ac, pu=t["pun"], ctx_tables=ctx_tables, rendered=t["rendered"], rendered_orig=t["rendered_orig"]))]
+    info = dict(sql=t["sql"], kc=kc, ac=ac, pu=t["pun"], ctx_tables=ctx_tables, rendered=t["rendered"], rendered_orig=t["rendered_orig"])
+    if RN is None:
+        out = [(dict(id=qid, script=ctx.script(nopanic + [bad_of(RD)]), values=symrel.value_names(ctx_tables), solvers=["cvc5", "z3new"]), dict(info, what="exact"))]
+    else:
+        # the result before the final clamp to the declared range must already be exact; a difference that only the clamp
+        # introduces (a declared range that is too small) is asked separately and reported under its own role
+        b_nc, b_full = bad_of(RN), bad_of(RD)
+        out = [(dict(id=qid, script=ctx.script(nopanic + [b_nc]), values=symrel.value_names(ctx_tables), solvers=["cvc5", "z3new"]), dict(info, what="exact")),
+               (dict(id="clamp|%d|L%d" % (t["qi"], t["li"]), script=ctx.script(nopanic + [b_full, lnot(b_nc)]), values=symrel.value_names(ctx_tables), solvers=["cvc5", "z3new"]), dict(info, what="exact", clamp=True))]
     if t["li"] == 0:
         out.append((dict(id="W|%d" % t["qi"], script=ctx.script(nopanic + [lor([a.p for a in RO.rows])]), values=[]), dict(what="witness")))
     return dict(queries=out)
@@ -135,9 +150,11 @@ def main():
         if dpir.has_fn(clean, "Random"):
             ck.inconclusive("`%s` (%s): a Random() survives the neutralisation of the noise terms (pattern not recognised)" % (sql, pun))
             continue
+        nc, changed = dpir.declamp_relation(rel)
+        clean_nc = dpir.neutralise_relation(nc) if changed else None
         stats["programs"] += 1
         for li, lay in enumerate(lays):
-            tasks.append(dict(qi=qi, li=li, lay=lay, sql=sql, kc=kc, ac=ac, pun=pun, clean=clean, orig=orig, rendered=ans.get("sql", {}).get("sqlite"), rendered_orig=ans.get("sql_original", {}).get("sqlite")))
+            tasks.append(dict(qi=qi, li=li, lay=lay, sql=sql, kc=kc, ac=ac, pun=pun, clean=clean, clean_nc=clean_nc, orig=orig, rendered=ans.get("sql", {}).get("sqlite"), rendered_orig=ans.get("sql_original", {}).get("sqlite")))
         if qi % 4 == 0:
             ck.sample(dict(sql=sql, privacy_unit=pun, dp_event=ans["ok"]["dp_event_s"].strip()))
     from common import budgeted
@@ -186,7 +203,11 @@ def main():
                     problems.append("extra DP group %s is not empty" % (b,))
         if problems:
             aggs = sorted({re.sub(r"\(.*", "", x.strip()) for x in info["sql"].split(" FROM")[0].replace("SELECT ", "").split(",") if "(" in x})
-            ck.violation("dp=inexact-without-noise/%s" % "+".join(aggs), "`%s` (%s) with the noise draw neutralised: %s; D = %s" % (info["sql"], info["pu"], problems[0], shown),
+            key = "dp=inexact-without-noise/%s" % "+".join(aggs)
+            if info.get("clamp"):
+                up = info["sql"].upper()
+                key = "dp=inexact-without-noise/result-clamped-to-declared-range/%s" % ("outer-join" if any(k in up for k in ("LEFT JOIN", "RIGHT JOIN", "FULL JOIN")) else "other")
+            ck.violation(key, "`%s` (%s) with the noise draw neutralised: %s; D = %s" % (info["sql"], info["pu"], problems[0], shown),
                          dict(sql=info["sql"], pu=info["pu"], db=shown, dp_rows=dpp, original_rows=orp))
         else:
             ck.inconclusive("exactness counterexample did not reproduce for `%s` (%s) on %s: dp %s vs original %s" % (info["sql"], info["pu"], shown, dpp, orp))
